@@ -21,11 +21,11 @@ def main(argv):
         if r.returncode != 0:
             print("does not apply", r.stderr)
             return 1
-        facts, m = F.load(repo=wt, use_cache=False)
+        facts, m = F.load(repo=wt, use_cache=False, release=(meta.get("config") == "release"))
         ix = mir.Index(facts)
         for prop in props:
             mod = importlib.import_module("rules." + prop.lower())
-            ctx = engine.run_rules(prop, mod.RULES, ix, "dev")
+            ctx = engine.run_rules(prop, mod.RULES, ix, meta.get("config") or "dev")
             keys = [i.key for i in ctx.insts if not i.ok and not i.note]
             if not isinstance(meta.get("caught_by"), dict):
                 meta["caught_by"] = {}
